@@ -219,6 +219,35 @@ def apply_inserts(text, origin, inserts):
     return new_text, new_origin
 
 
+def instantiate_macro(sc, rel, macro, bindings):
+    """R6: the transcriber of a one-rule `macro_rules!` is instantiated by token substitution of its metavariables
+    (`$name` -> text), e.g. macro:make_resolve_const_function[fn_ident=resolve_const_expr_unsigned,const_ty=u64]."""
+    src, toks = sc.get(rel)
+    try:
+        m = find_item(src, toks, 'macro_rules', macro)
+    except ItemNotFound:
+        raise WeaveError(f'lost anchor: {rel}: macro_rules! {macro} not found')
+    # first `=>` followed by `{` inside the macro body
+    k = m['body_open']
+    j = k + 1
+    while j < m['body_close'] and not (toks[j].text == '=' and toks[j + 1].text == '>' and toks[j + 2].text == '{'):
+        j += 1
+    if j >= m['body_close']:
+        raise WeaveError(f'{rel}: macro {macro}: no transcriber found')
+    o = j + 2
+    c = match_close(toks, o)
+    text = src[toks[o].end:toks[c].start]
+    line0 = src.count('\n', 0, toks[o].end) + 1
+    for b in bindings.split(','):
+        if not b.strip():
+            continue
+        name, val = b.split('=', 1)
+        text = re.sub(r'\$' + re.escape(name.strip()) + r'\b', val.strip(), text)
+    if '$' in text:
+        raise WeaveError(f'{rel}: macro {macro}: unbound metavariable after substitution')
+    return dict(attrs=[], text=text, line0=line0, rel=rel, line1=line0 + text.count('\n'))
+
+
 def lift_block(fb, it):
     """R5 block lifting: the `{ .. }` block that starts on the n-th line of the enclosing function matching the
     regex is copied verbatim as the body of a generated function `fn NAME(PARAMS) -> RET`.  With skip=N the first
@@ -236,6 +265,22 @@ def lift_block(fb, it):
     li = hits[fb.lift['occ'] - 1]
     off = sum(len(l) + 1 for l in lines[:li])
     line = lines[li]
+    if 'expr' in fb.opts:
+        # single-line expression arm `PATTERN => EXPR,`
+        m2 = re.search(r'=>\s*(.*?),?\s*$', line)
+        if not m2 or not m2.group(1) or m2.group(1).endswith('{'):
+            raise WeaveError(f'{fb.path}: not a single-line expression arm: {line.strip()}')
+        block = '{ ' + m2.group(1) + ' }'
+        params = ' '.join(' '.join(l.split()) for l, _ in fb.lift.get('params', []))
+        ret = fb.lift.get('returns')
+        name = fb.opts.get('name')
+        raw = f'fn {name}({params})' + (f' -> {ret} ' if ret else ' ') + block
+        it2 = dict(it)
+        it2['line0'] = it['line0'] + li
+        it2['line1'] = it['line0'] + li
+        it2['text'] = raw
+        fb.path = name
+        return it2, raw
     if not line.rstrip().endswith('{'):
         raise WeaveError(f'{fb.path}: lifted line does not open a block: {line.strip()}')
     start = off + line.rstrip().rindex('{')
@@ -284,8 +329,12 @@ def _body_open(toks):
 
 
 def weave_fn(sc, fb, reach=False):
-    impl_type, name = fb.path.split('::') if '::' in fb.path else (None, fb.path)
-    it = extract_item(sc, fb.rel, 'fn', name, impl_type=impl_type)
+    mm = re.match(r'^macro:(\w+)\[(.*)\]$', fb.path)
+    if mm:
+        it = instantiate_macro(sc, fb.rel, mm.group(1), mm.group(2))
+    else:
+        impl_type, name = fb.path.split('::') if '::' in fb.path else (None, fb.path)
+        it = extract_item(sc, fb.rel, 'fn', name, impl_type=impl_type)
     raw = it['text']
     if fb.lift is not None:
         it, raw = lift_block(fb, it)
@@ -536,7 +585,9 @@ def process_template(tmpl_path, repo, reach=False):
             mm = re.match(r'^(\S+)\s+(\S+)\s+/(.*)/\s+(\d+)\s*(.*)$', rest)
             if not mm:
                 raise WeaveError(f'template line {tl}: bad //@lift directive')
-            _, kv = _kv(mm.group(5).split())
+            flags, kv = _kv(mm.group(5).split())
+            for fl in flags:
+                kv[fl] = True
             if assume_mode:
                 kv['external_body'] = True
                 kv['assumed_from'] = assume_mode
